@@ -149,6 +149,16 @@ func (r *run) playScript(lines []string) {
 			}
 			r.slog(l)
 			r.doProbe(a)
+		case "early":
+			if r.earlyOwner() == nil {
+				r.status = fmt.Sprintf("notenabled:%d:%s", n, strings.ReplaceAll(l, " ", "_"))
+				return
+			}
+			r.slog(l)
+			r.doEarly()
+			if r.aborted {
+				return
+			}
 		case "call":
 			t, _ := strconv.Atoi(tok[1])
 			tk, _ := strconv.ParseInt(tok[4], 10, 64)
@@ -263,6 +273,9 @@ func (r *run) playRandom(g *vc.Rng) {
 				}
 			}
 		}
+		if r.earlyOwner() != nil {
+			acts = append(acts, act{kind: "early"}, act{kind: "early"}, act{kind: "early"})
+		}
 		var open []*callState // received by the server, not yet answered
 		for _, c := range r.callers {
 			if c.active != nil && c.active.frame >= 0 && !c.active.delivered {
@@ -292,6 +305,12 @@ func (r *run) playRandom(g *vc.Rng) {
 			break
 		}
 		switch a.kind {
+		case "early":
+			r.slog("early rx")
+			r.doEarly()
+			if r.aborted {
+				return
+			}
 		case "probe":
 			probes--
 			show := a.actor
